@@ -444,8 +444,11 @@ Fixpoint render_segs (esc : list byte -> list byte) (quals : list bool) (kids : 
 
 (** the RESTCONF-style path of the spec: percent-encoded comma-separated keys, optional module
     qualification per segment, optional trailing slash *)
-Definition render (quals : list bool) (trailing : bool) (kids : list snode) (l : loc) : list byte :=
-  join slash (render_segs escape quals kids l) ++ (if trailing then [slash] else []).
+Definition render_with (esc : list byte -> list byte) (quals : list bool) (trailing : bool)
+           (kids : list snode) (l : loc) : list byte :=
+  join slash (render_segs esc quals kids l) ++ (if trailing then [slash] else []).
+(** ... with the reference encoder *)
+Definition render := render_with escape.
 
 (** Path.StringNoModule() / Path.String() of the selection at [l] (node/path.go str, toBuffer) *)
 Definition path_string_nomod (kids : list snode) (l : loc) : list byte :=
